@@ -325,6 +325,7 @@ func runC16(res *report.Result) {
 			}
 		}
 	}
+	h.connFamilies(byName, envs)
 	res.Extra["exhaustive"] = !h.capped
 	res.Extra["bound"] = fmt.Sprintf("every single cut, every uniform chunk size, every pair of cuts for streams <= %d bytes, pairs within %d bytes of an encoder write boundary for longer streams", pairLimit, nearField)
 }
